@@ -483,6 +483,15 @@ class SV:
     def conjugate(self):
         return self
 
+    def astype(self, t, *a, **k):
+        nm = getattr(t, "__name__", str(t))
+        if nm in ("int", "_b_int", "int64", "int32", "int_"):
+            return pyint(self)
+        return pyfloat(self)
+
+    def item(self):
+        return self
+
 
 def _arr_bin(s, o, f, swap):
     """SV <op> numpy array: element-wise"""
